@@ -182,6 +182,30 @@ theorem load_thin (b : Ty) :
   | error e => rfl
   | ok r1 => rfl
 
+/-- `field::dump` as written is the model's `dump` -/
+theorem dump_field (ty : Ty) (d : Dat) : dump ty d = wr Ref.field.tag Ref.field.write [] (dumpB ty d) := by
+  simp [dump, wr, wrapD, Ref.field, List.append_assoc]
+
+/-- `field(std::istream&)` as written (header inside the member initialiser, stack, footer in the body) is the model's `load` -/
+theorem load_field (ty : Ty) :
+    load ty = bindP (rdS Ref.field.tag Ref.field.read [] (loadB ty)) fun r =>
+      match r with
+      | ([], some d) => pureP d
+      | _ => failP .truncated := by
+  funext bs
+  simp only [load, rdS, wrapP, bindP, pureP, Ref.field]
+  cases pHdr T_FIELD bs with
+  | error e => rfl
+  | ok r1 =>
+    simp only
+    cases loadB ty r1.2 with
+    | error e => rfl
+    | ok r2 =>
+      simp only
+      cases pFtr T_FIELD r2.2 with
+      | error e => rfl
+      | ok r3 => rfl
+
 /-- the three storage orders share one script shape and differ in the tag only -/
 theorem sized_scripts : Ref.strided.write = [.hdr, .field .sizes, .inner, .ftr] ∧ Ref.morton.write = [.hdr, .field .sizes, .inner, .ftr]
     ∧ Ref.hilbert.write = [.hdr, .field .sizes, .inner, .ftr] ∧ Ref.strided.read = Ref.strided.write
